@@ -91,16 +91,16 @@ Definition has_act (cb : ocb) : bool := match oc_act cb with Some _ => true | No
 (* what one asyncio firing for model m in state s at time t must contribute: the marker, EVERY on_timeout
    callback in order (whatever the transitions triggered by earlier ones did to the timer), then the
    machine's on_exception callbacks with the first failing callback iff one failed *)
-Definition async_firing (c : tcfg) (m : tmodel) (s : tstate) (t : nat) : list titem :=
-  let cbs := ts_on_timeout (sdef c s) in
+Definition async_firing (c : tcfg) (ot : tstate -> list ocb) (m : tmodel) (s : tstate) (t : nat) : list titem :=
+  let cbs := ot s in
   TFired m s t :: map (fun cb => CTimeout (oc_id cb) m s t) cbs ++
   match first_raising cbs with
   | Some k => map (fun h => COnExc h m k t) (tc_onexc c)
   | None => []
   end.
 
-Definition ids_positive (c : tcfg) (s : tstate) : bool :=
-  forallb (fun cb => Nat.ltb 0 (oc_id cb)) (ts_on_timeout (sdef c s)).
+Definition ids_positive (ot : tstate -> list ocb) (s : tstate) : bool :=
+  forallb (fun cb => Nat.ltb 0 (oc_id cb)) (ot s).
 Definition is_ctimeout (it : titem) : bool := match it with CTimeout _ _ _ _ => true | _ => false end.
 Definition is_user_onexc (it : titem) : bool :=
   match it with COnExc _ _ err _ => negb (Nat.eqb err 0) | _ => false end.
